@@ -29,6 +29,12 @@ impl Interpreter {
 
     pub(crate) fn match_script_bit(&mut self, bit: &ScriptBit) -> Result<State, InterpreterError> {
         Ok(match bit {
+            ScriptBit::OpCode(OpCodes::OP_RETURN) => {
+                // OP_RETURN ends the execution of the script successfully; nothing after it is evaluated.
+                self.state.executed_opcodes.push(OpCodes::OP_RETURN);
+                self.script_index = self.script_bits.len();
+                self.state.clone()
+            }
             ScriptBit::OpCode(o) => match Interpreter::match_opcode(self.script_index, o, &mut self.state.clone(), self.tx_script.clone()) {
                 Ok(mut next_state) => {
                     next_state.executed_opcodes.push(*o);
